@@ -887,7 +887,7 @@ func (p *printer) share(roots []*Term) {
 	}
 }
 
-const smtPrelude = `(declare-sort Ref 0)
+const smtPreludeDecls = `(declare-sort Ref 0)
 (declare-fun nil () Ref)
 (declare-fun obj (Int) Ref)
 (declare-fun emb (Ref Int) Ref)
@@ -901,14 +901,72 @@ const smtPrelude = `(declare-sort Ref 0)
 (declare-fun rootid (Ref) Int)
 (declare-fun parentof (Ref) Ref)
 (define-fun isemb ((r Ref)) Bool (= (kind r) 2))
-(assert (and (= (kind nil) 0) (= (rootid nil) (- 1)) (= (parentof nil) nil)))
+`
+
+const smtPreludeAxioms = `(assert (and (= (kind nil) 0) (= (rootid nil) (- 1)) (= (parentof nil) nil)))
 (assert (forall ((k Int)) (! (and (= (kind (obj k)) 1) (= (oid (obj k)) k) (= (rootid (obj k)) k) (= (parentof (obj k)) (obj k))) :pattern ((obj k)))))
 (assert (forall ((p Ref) (f Int)) (! (and (= (kind (emb p f)) 2) (= (eparent (emb p f)) p) (= (efld (emb p f)) f) (= (rootid (emb p f)) (rootid p)) (= (parentof (emb p f)) p)) :pattern ((emb p f)))))
 (assert (forall ((p Ref) (i Int)) (! (and (= (kind (elem p i)) 3) (= (lparent (elem p i)) p) (= (lidx (elem p i)) i) (= (rootid (elem p i)) (rootid p)) (= (parentof (elem p i)) p)) :pattern ((elem p i)))))
 `
 
+const smtPrelude = smtPreludeDecls + smtPreludeAxioms
+
+
 // Query renders assumptions and a negated goal as a complete SMT-LIB script.
 func Query(assumptions []*Term, goal *Term, wantModel bool) string {
+	return queryWith(assumptions, goal, wantModel, false)
+}
+
+// QueryGround renders the query with the Ref axioms instantiated for the constructor terms that occur
+// (no quantified prelude): used for the quantifier-free stage.
+func QueryGround(assumptions []*Term, goal *Term) string {
+	return queryWith(assumptions, goal, false, true)
+}
+
+func refFacts(roots []*Term) []*Term {
+	seen := map[*Term]bool{}
+	var facts []*Term
+	var walk func(t *Term)
+	walk = func(t *Term) {
+		if seen[t] || t.hasBound {
+			if t.hasBound && !seen[t] {
+				seen[t] = true
+				for _, a := range t.Args {
+					walk(a)
+				}
+			}
+			return
+		}
+		seen[t] = true
+		for _, a := range t.Args {
+			walk(a)
+		}
+		switch t.Op {
+		case "obj":
+			facts = append(facts, Eq(mk("kind", IntSort, t), IntLit(1)), Eq(mk("oid", IntSort, t), t.Args[0]),
+				Eq(mk("rootid", IntSort, t), t.Args[0]), Eq(mk("parentof", RefSort, t), t))
+		case "emb":
+			facts = append(facts, Eq(mk("kind", IntSort, t), IntLit(2)), Eq(mk("eparent", RefSort, t), t.Args[0]), Eq(mk("efld", IntSort, t), t.Args[1]),
+				Eq(mk("rootid", IntSort, t), mk("rootid", IntSort, t.Args[0])), Eq(mk("parentof", RefSort, t), t.Args[0]))
+		case "elem":
+			facts = append(facts, Eq(mk("kind", IntSort, t), IntLit(3)), Eq(mk("lparent", RefSort, t), t.Args[0]), Eq(mk("lidx", IntSort, t), t.Args[1]),
+				Eq(mk("rootid", IntSort, t), mk("rootid", IntSort, t.Args[0])), Eq(mk("parentof", RefSort, t), t.Args[0]))
+		}
+	}
+	for _, r := range roots {
+		walk(r)
+	}
+	return facts
+}
+
+func queryWith(assumptions []*Term, goal *Term, wantModel bool, ground bool) string {
+	if ground {
+		roots := append([]*Term{}, assumptions...)
+		if goal != nil {
+			roots = append(roots, goal)
+		}
+		assumptions = append(refFacts(roots), assumptions...)
+	}
 	p := &printer{names: map[*Term]string{}}
 	roots := append([]*Term{}, assumptions...)
 	if goal != nil {
@@ -927,7 +985,12 @@ func Query(assumptions []*Term, goal *Term, wantModel bool) string {
 		sb.WriteString("(set-option :produce-models true)\n")
 	}
 	sb.WriteString("(set-logic ALL)\n")
-	sb.WriteString(smtPrelude)
+	if ground {
+		sb.WriteString(smtPreludeDecls)
+		sb.WriteString("(assert (and (= (kind nil) 0) (= (rootid nil) (- 1)) (= (parentof nil) nil)))\n")
+	} else {
+		sb.WriteString(smtPrelude)
+	}
 	// declarations must precede definitions: definitions were rendered through inline(), which registered decls
 	names := append([]string{}, p.order...)
 	sort.Strings(names)
